@@ -115,6 +115,9 @@ def compare(res_nan, res_pair, table, acc, case, site):
         acc.violation(site + ":values", case, "pair format: %r, expected %r" % (v.tolist(), table.tolist()))
 
 
+_POOLED_NTH = 0
+
+
 def check_cube(denses, commons, E_shape, acc, case, layout=None):
     from catii.ccubes import ccube
 
@@ -144,6 +147,20 @@ def check_cube(denses, commons, E_shape, acc, case, layout=None):
             continue
         table = M.count_table(denses, shape, N)
         compare(r1, r2, table, acc, dict(case, mode=mode), "count")
+        global _POOLED_NTH
+        if mode == "explicit" and layout is None and any(d.ndim >= 2 for d in denses):
+            _POOLED_NTH += 1
+        if mode == "explicit" and layout is None and any(d.ndim >= 2 for d in denses) and (_POOLED_NTH % 6 == 0 or case.get("pooled")):
+            # the same count with the cube's worker pool switched on (real threads; default pool size, and more workers than blocks), every sixth cube
+            for ps in ((None, 7) if _POOLED_NTH % 12 == 0 or case.get("pooled") else (None,)):
+                try:
+                    pc, pc2 = ccube(dims, interacting_shape=shape), ccube(dims, interacting_shape=shape)
+                    pc.parallel = pc2.parallel = True
+                    if ps is not None:
+                        pc.poolsize = pc2.poolsize = ps
+                    compare(pc.count(), pc2.count(return_missing_as=(0, False)), table, acc, dict(case, mode=mode, pooled=ps or "default"), "count-pooled")
+                except Exception as e:  # noqa
+                    acc.violation("count-pooled:raised", dict(case, mode=mode, pooled=ps or "default"), repr(e))
         if mode == "explicit" and layout is None and all(int(d.max()) + 1 < s for d, s in zip(denses, shape) if d.size):
             # the SAME cube object asked again after each in-place change of its first dimension, and a new cube over the changed dimension
             from .. import cubes as Q
